@@ -4,6 +4,7 @@ import OjgVerif.Sen.Writer
 import OjgVerif.Sen.WriterIndent
 import OjgVerif.Sen.Layout
 import OjgVerif.Sen.WriterStream
+import OjgVerif.Sen.WriterSort
 import OjgVerif.Json.Spec
 /-! Driver ops of the SEN family (C10, C03sen, C06sen, C07sen). -/
 namespace OjgVerif.Sen
@@ -216,18 +217,20 @@ def handle : List String → String
   | ["tight", opts, tree] =>
     match parseTree tree with
     | some v =>
-      if opts.toList.any (fun c => c ≠ 'n' && c ≠ 'e' && c ≠ 'h' && c ≠ '-') then "bad-op"
-      else toHexF (tightVal { omitNil := opts.contains 'n', omitEmpty := opts.contains 'e', html := opts.contains 'h' } v)
+      -- `s` = `Sort`: the members are sorted first (`sortVal`), whatever order the tree gives them in
+      if opts.toList.any (fun c => c ≠ 'n' && c ≠ 'e' && c ≠ 'h' && c ≠ 's' && c ≠ '-') then "bad-op"
+      else toHexF (tightVal { omitNil := opts.contains 'n', omitEmpty := opts.contains 'e', html := opts.contains 'h' }
+        (if opts.contains 's' then sortVal v else v))
     | none => "bad-op"
   -- `indent <opts n e h> <tab 0|1> <Indent> <tree>` = sen.Writer with these options (the indented writer when
   -- `Tab || 0 < Indent`, the tight one otherwise: `senWrite`)
   | ["indent", opts, tab, ind, tree] =>
     match parseTree tree, ind.toNat? with
     | some v, some n =>
-      if opts.toList.any (fun c => c ≠ 'n' && c ≠ 'e' && c ≠ 'h' && c ≠ '-') then "bad-op"
+      if opts.toList.any (fun c => c ≠ 'n' && c ≠ 'e' && c ≠ 'h' && c ≠ 's' && c ≠ '-') then "bad-op"
       else if tab ≠ "0" && tab ≠ "1" then "bad-op"
       else toHexF (senWrite { omitNil := opts.contains 'n', omitEmpty := opts.contains 'e', html := opts.contains 'h' }
-        { tab := tab = "1", indent := n } v)
+        { tab := tab = "1", indent := n } (if opts.contains 's' then sortVal v else v))
     | _, _ => "bad-op"
   -- `numadm <hex>`: is the text a complete number literal of the grammar of Props/C10Num.lean (`NumAdm`: RFC 8259
   -- number, integer part below 9223372036854775800)? `Spec.pNumber t = some (t, [])` is the hypothesis of
